@@ -84,6 +84,8 @@ pub(super) struct Sim {
     /// validator updates returned by FinalizeBlock per height (CometBFT applies those of height h at h + 2)
     pub(super) val_updates: BTreeMap<u64, Vec<tendermint::validator::Update>>,
     pub(super) last_decided_round: u16,
+    pub(super) stop_after_height: bool,
+    pub(super) twin_must_process: Option<usize>,
 }
 
 fn short(e: &str) -> String {
@@ -234,6 +236,9 @@ pub(super) struct BlockCtx {
     pub(super) max_tx_bytes: i64,
     /// the extended commit of the previous height as the proposer of this round holds it
     pub(super) eci: abci::types::ExtendedCommitInfo,
+    /// evidence of misbehaviour carried by the block
+    pub(super) misbehavior: Vec<abci::types::Misbehavior>,
+    pub(super) next_validators_hash: Hash,
 }
 
 impl BlockCtx {
@@ -249,10 +254,10 @@ impl BlockCtx {
             max_tx_bytes: self.max_tx_bytes,
             txs: vec![],
             local_last_commit: Some(self.eci.clone()),
-            misbehavior: vec![],
+            misbehavior: self.misbehavior.clone(),
             height: Height::try_from(self.height).unwrap(),
             time: self.time,
-            next_validators_hash: Hash::default(),
+            next_validators_hash: self.next_validators_hash,
             proposer_address: self.proposer,
         }
     }
@@ -261,11 +266,11 @@ impl BlockCtx {
         abci::request::ProcessProposal {
             txs: self.txs.clone(),
             proposed_last_commit: Some(self.last_commit()),
-            misbehavior: vec![],
+            misbehavior: self.misbehavior.clone(),
             hash: Hash::Sha256(self.hash),
             height: Height::try_from(self.height).unwrap(),
             time: self.time,
-            next_validators_hash: Hash::default(),
+            next_validators_hash: self.next_validators_hash,
             proposer_address: self.proposer,
         }
     }
@@ -274,11 +279,11 @@ impl BlockCtx {
         abci::request::FinalizeBlock {
             txs: self.txs.clone(),
             decided_last_commit: self.last_commit(),
-            misbehavior: vec![],
+            misbehavior: self.misbehavior.clone(),
             hash: Hash::Sha256(self.hash),
             height: Height::try_from(self.height).unwrap(),
             time: self.time,
-            next_validators_hash: Hash::default(),
+            next_validators_hash: self.next_validators_hash,
             proposer_address: self.proposer,
         }
     }
@@ -327,10 +332,27 @@ impl Sim {
             packet_seq: 0,
             val_updates: BTreeMap::new(),
             last_decided_round: 0,
+            stop_after_height: false,
+            twin_must_process: None,
             ok: true,
         };
         sim.init_chain().await;
         sim
+    }
+
+    /// DuplicateVote evidence against one validator of the genesis set (never against the last remaining one).
+    fn make_evidence(&mut self, height: u64, time: Time) -> abci::types::Misbehavior {
+        let nv = self.uni.validators.len();
+        let i = self.rng.gen_range(0..nv);
+        let addr = self.uni.validator_address(i);
+        let total: u64 = self.uni.validators.iter().map(|(_, p)| u64::from(*p)).sum();
+        abci::types::Misbehavior {
+            kind: abci::types::MisbehaviorKind::DuplicateVote,
+            validator: abci::types::Validator { address: addr.as_bytes().try_into().unwrap(), power: self.uni.validators[i].1.into() },
+            height: Height::try_from(height.saturating_sub(1).max(1)).unwrap(),
+            time,
+            total_voting_power: total.try_into().unwrap(),
+        }
     }
 
     fn all_nodes_mut(&mut self) -> Vec<&mut Node> {
@@ -424,7 +446,15 @@ impl Sim {
                 txs: vec![],
                 max_tx_bytes,
                 eci: abci::types::ExtendedCommitInfo { votes: vec![], round: 0u16.into() },
+                misbehavior: vec![],
+                next_validators_hash: Hash::default(),
             };
+            // evidence of misbehaviour (profile `paths` only; the history ends after such a block because the application drops
+            // the named validator from its own set while CometBFT's set - which the harness models for the votes - keeps it)
+            if last && self.profile == "paths" && height >= 2 && self.rng.gen_bool(0.06) {
+                ctx.misbehavior = vec![self.make_evidence(height, time)];
+                self.stop_after_height = true;
+            }
             ctx.eci = self.make_eci(height, p).await;
             // proposer prepares
             let res = {
@@ -472,6 +502,40 @@ impl Sim {
                     }
                 }
             } else {
+                // "twin" of the proposer's own proposal: an equivocating proposer / a second instance of the same validator gets a
+                // block decided that carries the same transactions but differs in one header field. The node that prepared the
+                // original must not reuse its cached execution for it.
+                if self.profile == "paths" && height >= 2 && self.rng.gen_bool(0.12) {
+                    let kind = self.rng.gen_range(0..4);
+                    let what = match kind {
+                        0 => {
+                            ctx.time = Time::from_unix_timestamp(1_744_036_762 + 2 * height as i64 + 1, 5).unwrap();
+                            "time"
+                        }
+                        1 => {
+                            ctx.next_validators_hash = Hash::Sha256(block_hash(hist, height, round, 991));
+                            "next_validators_hash"
+                        }
+                        2 => {
+                            let other = self.uni.validator_address(self.rng.gen_range(0..self.uni.validators.len()));
+                            ctx.proposer = other;
+                            "proposer_address"
+                        }
+                        _ => {
+                            if ctx.misbehavior.is_empty() {
+                                ctx.misbehavior = vec![self.make_evidence(height, time)];
+                            } else {
+                                ctx.misbehavior.clear();
+                            }
+                            self.stop_after_height = true;
+                            "misbehavior"
+                        }
+                    };
+                    ctx.hash = block_hash(hist, height, round, 555);
+                    self.log.ev(json!({"kind": "twin_of_own_proposal", "hist": hist, "height": height, "round": round, "proposer_node": p, "differs_in": what}));
+                    // make sure the node that prepared the original is among those that process the twin
+                    self.twin_must_process = Some(p);
+                }
                 decided = Some(ctx);
             }
         }
@@ -499,7 +563,10 @@ impl Sim {
         // ---- 3. the decided block on every node along its own path
         let mut responses = vec![];
         for n in 0..nn {
-            let path = self.rng.gen_range(0..10);
+            let mut path = self.rng.gen_range(0..10);
+            if self.twin_must_process == Some(n) {
+                path = 0;
+            }
             // 0..=5 process+finalize ; 6..=8 finalize only (sync) ; 9 restart then finalize only
             if path == 9 {
                 self.nodes[n].restart(self.upgrades.0, self.upgrades.1).await;
@@ -549,6 +616,7 @@ impl Sim {
             }
         }
         self.last_decided_round = ctx.round;
+        self.twin_must_process = None;
         // ---- 4. lab replay of the decided block
         self.current_built = built.clone();
         self.lab_block(&ctx).await;
@@ -1024,7 +1092,7 @@ pub(super) async fn run_from_env() {
         let mut sim = Sim::new(log.clone(), vlog::seed(), hist, &profile).await;
         for _ in 0..blocks {
             sim.run_height().await;
-            if !sim.ok {
+            if !sim.ok || sim.stop_after_height {
                 break;
             }
         }
